@@ -339,12 +339,15 @@ c05 = with_shared(_c05, [(c18, {'C18.P6': 'C05.i'}, 'arming a line rewrites opco
                          (c08, {'C08.a': 'C05.f', 'C08.b': 'C05.f2', 'C08.c': 'C05.f3'}, 'the sites the VM rewrites are exactly the POTENTIAL_BREAK instructions the generator listed'),
                          (c17, {'C17.Z1': 'C05.g', 'C17.Z2': 'C05.g2'}, 'reset() disarms every site it forgets: a run after reset() with nothing enabled is the uninterrupted run')])
 c06 = with_shared(_c06, [(_c08, {'C08.c': 'C06.j'}, 'the location reported at a stop comes from a table that only the compiler\'s site bookkeeping writes: listing or querying a program adds no entries'),
+                         (_c05, {'C05.a': 'C06.l'}, 'a request only rewrites opcodes at the sites of the location it names and never adds to the table of locations'),
                          (c18, {'C18.P2': 'C06.k'}, 'the locations listed as available are those of this program: no accessor accumulates results across calls or programs'),
                          (c18, {'C18.P6': 'C06.i'}, 'a machine stops only at lines enabled on this machine: the program whose opcodes it rewrites is its own copy'),
                          (_c05, {'C05.d': 'C06.h'}, 'resuming is a loop of single steps that returns at the first step that reports a stop, and not before'),
                          (_c05, {'C05.b': 'C06.f'}, 'break handlers advance by exactly one instruction, so no site is skipped and the location lookup finds the site just passed'),
                          (_c08, {'C08.a': 'C06.g', 'C08.b': 'C06.g2'}, 'the site armed for a location is the marker emitted for that location and line_info names the same location for it, so a stop is reported at the line that was enabled')])
 c07 = with_shared(_c07, [(c18, {'C18.P2': 'C07.q'}, 'a variable view shows this activation only: the accessor keeps nothing from an earlier call'),
+                         (_c04, {'C04.e': 'C07.s'}, 'the lines a run visits are those of its own routine: marks are kept per routine (a fresh table for every routine), so a jump never lands in another program'),
+                         (_c08, {'C08.c': 'C07.t'}, 'the location reported at a stop is a line of the program: listing or querying a program adds no entries to the site table'),
                          (_c05, {'C05.d': 'C07.r'}, 'execute() only drives executeSingle(): stepping by executeSingle() and resuming by execute() go through the same code, neither keeps state of its own (caches, counters) that the other would have to invalidate'),
                          (_c01, {'C01.f': 'C07.p'}, 'a user variable has a register of its own and is listed: no temporary is registered under a name a user variable can have, none is used after its release'),
                          (_c03, {'C03.e': 'C07.n'}, 'every parameter has a register (and stack-map entry) of its own, so the view shows each variable with its own value'),
@@ -371,8 +374,11 @@ c09 = with_shared(_c09, [(c18, {'C18.P2': 'C09.k'}, 'the detectors that are appl
                          (_c12, {'C12.f': 'C09.j'}, 'every definition is matched by a detector built from that very definition (and the caller\'s definitions are left intact for the next call)')])
 c12 = with_shared(_c12, [(_c09, {'C09.h': 'C12.h'}, 'conflicts are judged against the grammar of the language: the pattern grammar derives exactly the language\'s values, argument lists and statement sequences')])
 c14 = with_shared(_c14, [(c15, {'C15.I4': 'C14.S5'}, 'an include is replaced by the tokens of the named file exactly once per directive: a file that is being scanned is not entered again'),
+                         (c15, {'C15.I3': 'C14.S7'}, 'the file an include names is the text between its quotation marks, byte for byte: the tokens spliced in are those of that file'),
+                         (c18, {'C18.P1': 'C14.S8'}, 'the stack of open files belongs to one scan() call: no static or global object survives the call'),
                          (_c02, {'C02.f': 'C14.S6'}, 'synthesised tokens (the final end-of-file token) are labelled with the position of the last scanned token')])
 c17 = with_shared(_c17, [(_c18, {'C18.P6': 'C17.Z9'}, 'a newly constructed machine starts from the compiled program, not from one that another machine has armed: the program is copied at construction'),
+                         (_c05, {'C05.a': 'C17.Z11'}, 'only setBreakPoint/clearBreakpoints/reset rewrite opcodes, and only between BREAK and POTENTIAL_BREAK at the sites of recorded locations: what reset() restores is all that was ever armed'),
                          (_c06, {'C06.c': 'C17.Z10'}, 'what is armed is what is recorded as enabled: a request for a location that is not listed has no effect at all, so reset() and clearBreakpoints(), which restore the sites of the recorded locations, restore every armed site'),
                          (_c08, {'C08.a': 'C17.Z6', 'C08.b': 'C17.Z7'}, 'reset() puts POTENTIAL_BREAK at every listed site: the listed sites are exactly the marker instructions, otherwise a reset machine runs a different program than a fresh one'),
                          (_c06, {'C06.d': 'C17.Z8'}, 'before execution starts and after a reset the current location is none: the lookup is exact (ip - 1 is no site)'),
